@@ -544,7 +544,8 @@ func (u *Univ) WellTyped(t types.Type, term string, depth int) string {
 		}
 		return and(parts...)
 	case *types.Slice:
-		parts := []string{fmt.Sprintf("(>= (sl.len %s) 0)", term), fmt.Sprintf("(=> (sl.nil %s) (= (sl.len %s) 0))", term, term)}
+		// len is a Go int: 0 <= len <= 2^63-1
+		parts := []string{fmt.Sprintf("(>= (sl.len %s) 0)", term), fmt.Sprintf("(<= (sl.len %s) 9223372036854775807)", term), fmt.Sprintf("(=> (sl.nil %s) (= (sl.len %s) 0))", term, term)}
 		ew := u.WellTyped(tt.Elem(), fmt.Sprintf("(select (sl.arr %s) wt!i)", term), depth+1)
 		if ew != "true" {
 			parts = append(parts, fmt.Sprintf("(forall ((wt!i Int)) (! (=> (and (<= 0 wt!i) (< wt!i (sl.len %s))) %s) :pattern ((select (sl.arr %s) wt!i))))", term, ew, term))
